@@ -249,6 +249,26 @@ fn js_string_literal(units: &[u16]) -> String {
     out
 }
 
+/// Hand-written snippets of valid-but-odd syntax and boundary arguments of builtins
+/// (`corpus/c02/syntax_corners.js`, one snippet per `//# name` header).
+pub fn corners() -> &'static Vec<(String, String)> {
+    use std::sync::OnceLock;
+    static L: OnceLock<Vec<(String, String)>> = OnceLock::new();
+    L.get_or_init(|| {
+        let text = include_str!("../../../../corpus/c02/syntax_corners.js");
+        let mut out: Vec<(String, String)> = vec![];
+        for line in text.lines() {
+            if let Some(name) = line.strip_prefix("//# ") {
+                out.push((name.trim().to_string(), String::new()));
+            } else if let Some(last) = out.last_mut() {
+                last.1.push_str(line);
+                last.1.push('\n');
+            }
+        }
+        out
+    })
+}
+
 fn base_program(rng: &mut Rng) -> String {
     match rng.below(10) {
         0..=3 => {
@@ -293,7 +313,14 @@ pub fn generate(rng: &mut Rng, tier: Tier) -> Value {
     for _ in 0..n {
         let base = base_program(rng);
         let text = match rng.below(10) {
-            0..=3 => base,
+            // corner snippets run as written: their boundary constants (2**53-1, 2**32, ...) spliced
+            // into other calls by the mutator would make natives loop or allocate for minutes, which
+            // is the language's behaviour and not an engine failure
+            0 => {
+                let c = corners();
+                c[rng.idx(c.len())].1.clone()
+            }
+            1..=3 => base,
             _ => {
                 let other = base_program(rng);
                 mutate(rng, &base, &other)
@@ -608,7 +635,7 @@ pub const PROP: Prop = Prop {
     generate,
     execute,
     shrink,
-    rule: "one run = a history of 1..6 (quick) / 1..30 (thorough) entries on a reused or fresh context; each entry = an input (kernel, harvested snippet, litmus or sabotage program, or a token-level mutant of two of them: delete / duplicate / swap / splice / truncate / bracket nesting up to 64 / grammar spice, occasionally byte damage giving invalid UTF-8; 1 in 8 as UTF-16 code units with unpaired surrogates inserted, appended or left by a cut pair) fed through Source::from_bytes, Source::from_utf16 or the string argument of eval / Function, a faulty io::Read (1..64-byte reads, EINTR, hard error at byte k, EOF inside a sequence), budgeted evaluation or module evaluation through the simulated loader (latency, fetch / parse fault), under a seeded swarm of faults: limit triples with tiny values, collection at every k-th allocation (k=1 included) and at yields, refused string compilation, buffer cap; non-trivial = at least one fault fired; distinct = distinct (history length, reuse, schedule, sequence of outcome kinds). The byte-string axis of the property is sampled by a plain seeded generator without coverage guidance: the simulator contributes the fault and history axis, not a better input search.",
+    rule: "one run = a history of 1..6 (quick) / 1..30 (thorough) entries on a reused or fresh context; each entry = an input (kernel, harvested snippet, litmus or sabotage program, one of 48 hand-written syntax / boundary-argument corner snippets, or a token-level mutant of two of them: delete / duplicate / swap / splice / truncate / bracket nesting up to 64 / grammar spice, occasionally byte damage giving invalid UTF-8; 1 in 8 as UTF-16 code units with unpaired surrogates inserted, appended or left by a cut pair) fed through Source::from_bytes, Source::from_utf16 or the string argument of eval / Function, a faulty io::Read (1..64-byte reads, EINTR, hard error at byte k, EOF inside a sequence), budgeted evaluation or module evaluation through the simulated loader (latency, fetch / parse fault), under a seeded swarm of faults: limit triples with tiny values, collection at every k-th allocation (k=1 included) and at yields, refused string compilation, buffer cap; non-trivial = at least one fault fired; distinct = distinct (history length, reuse, schedule, sequence of outcome kinds). The byte-string axis of the property is sampled by a plain seeded generator without coverage guidance: the simulator contributes the fault and history axis, not a better input search.",
     real: &["lexer/parser/compiler/VM/builtins", "boa_gc", "SimpleJobExecutor", "module loading through the ModuleLoader seam"],
     stub: &["FaultyReader (io::Read)", "SimLoader", "SimHooks (deny compile, buffer cap)", "collection trigger decision (hook H1)"],
     assumptions: &[
